@@ -1,6 +1,6 @@
 // C29 replayer: executes CApi.tla behaviours through the C API only (<occa.h>); prints, after every
 // call, what the C API reports about every handle the behaviour asks to read.  No model in here.
-//   step {"a":"create"|"oset"|"oget"|"apush"|"aget"|"apop"|"aclear"|"ainsert"|"free"|"construct"|"echo",
+//   step {"a":"create"|"oset"|"oget"|"ohas"|"apush"|"aget"|"apop"|"aclear"|"ainsert"|"free"|"construct"|"echo",
 //         "h":handle, "k":key/token, "x":{t,v}, "src":handle to copy from, "i":index,
 //         "reads":[{"h":handle,"as":ctype-or-""}...]}
 #include "replay_core.hpp"
@@ -109,7 +109,7 @@ static std::string observe(int h, occaType x, const std::string &as) {
   }
   if (S) s += ",\"v\":" + mj::quote(occaJsonGetString(x));
   if (A) s += ",\"n\":" + std::to_string(occaJsonArraySize(x));
-  if (O) s += ",\"n\":" + std::to_string((int) occaJsonObjectHas(x, "a") + (int) occaJsonObjectHas(x, "b"));
+  if (O) s += ",\"n\":" + std::to_string((int) occaJsonObjectHas(x, "a") + (int) occaJsonObjectHas(x, "b") + (int) occaJsonObjectHas(x, "c"));
   return s + "}";
 }
 
@@ -203,6 +203,7 @@ int main(int argc, char **argv) {
         if (a == "create") H.push_back(occaCreateJson());
         else if (a == "oset") occaJsonObjectSet(H[h], k.c_str(), x);
         else if (a == "oget") H.push_back(occaJsonObjectGet(H[h], k.c_str(), x));
+        else if (a == "ohas") extra = std::string(",\"has\":") + (occaJsonObjectHas(H[h], k.c_str()) ? "true" : "false");
         else if (a == "apush") occaJsonArrayPush(H[h], x);
         else if (a == "aget") H.push_back(occaJsonArrayGet(H[h], idx));
         else if (a == "apop") occaJsonArrayPop(H[h]);
